@@ -175,7 +175,7 @@ func checkSameExecutor(c *core.Ctx, rule string) {
 			if !ok || w2.Fn != w.Fn {
 				continue
 			}
-			if call, ok := core.Unwrap(st2.Val).(*ssa.Call); ok && core.CalleeName(&call.Call) == core.PkgState+".NewCheckState" && len(call.Call.Args) == 1 && core.SameValue(call.Call.Args[0], st.Val) {
+			if call, ok := core.Unwrap(st2.Val).(*ssa.Call); ok && core.CalleeName(core.NormCall(&call.Call)) == core.PkgState+".NewCheckState" && len(core.NormCall(&call.Call).Args) == 1 && core.SameValue(core.NormCall(&call.Call).Args[0], st.Val) {
 				paired = true
 			}
 		}
@@ -185,9 +185,9 @@ func checkSameExecutor(c *core.Ctx, rule string) {
 		st2, ok := w2.Instr.(*ssa.Store)
 		good := false
 		if ok {
-			if call, ok := core.Unwrap(st2.Val).(*ssa.Call); ok && core.CalleeName(&call.Call) == core.PkgState+".NewCheckState" {
+			if call, ok := core.Unwrap(st2.Val).(*ssa.Call); ok && core.CalleeName(core.NormCall(&call.Call)) == core.PkgState+".NewCheckState" {
 				for _, w := range dw {
-					if st, ok := w.Instr.(*ssa.Store); ok && w.Fn == w2.Fn && core.SameValue(call.Call.Args[0], st.Val) {
+					if st, ok := w.Instr.(*ssa.Store); ok && w.Fn == w2.Fn && core.SameValue(core.NormCall(&call.Call).Args[0], st.Val) {
 						good = true
 					}
 				}
@@ -429,10 +429,10 @@ func isViewPhi(ph *ssa.Phi) bool {
 				return false
 			}
 		case *ssa.Call:
-			if core.CalleeName(&x.Call) != core.PkgState+".NewCheckState" {
+			if core.CalleeName(core.NormCall(&x.Call)) != core.PkgState+".NewCheckState" {
 				return false
 			}
-			ta, ok := core.Unwrap(x.Call.Args[0]).(*ssa.TypeAssert)
+			ta, ok := core.Unwrap(core.NormCall(&x.Call).Args[0]).(*ssa.TypeAssert)
 			if !ok || !isStatePtr(ta.AssertedType, "State") {
 				return false
 			}
@@ -573,10 +573,10 @@ func mempoolRule(r *ssa.Return, fn *ssa.Function) bool {
 			continue
 		}
 		call, ok := ex.Tuple.(*ssa.Call)
-		if !ok || core.CalleeName(&call.Call) != "(*sync.Map).LoadOrStore" {
+		if !ok || core.CalleeName(core.NormCall(&call.Call)) != "(*sync.Map).LoadOrStore" {
 			continue
 		}
-		if _, isParam := core.Unwrap(call.Call.Args[0]).(*ssa.Parameter); isParam {
+		if _, isParam := core.Unwrap(core.NormCall(&call.Call).Args[0]).(*ssa.Parameter); isParam {
 			return true
 		}
 	}
